@@ -108,6 +108,86 @@ Proof.
 Qed.
 
 (** * the executable predicate holds of the model's output *)
+Lemma run_of_eq vals d i ns l p n : run_of vals d i (ns, l, p, n) = final_value vals d i ns l p n.
+Proof. reflexivity. Qed.
+Lemma model_parse_eq s : model_parse s = parse_top ident_check json_args_model true s.
+Proof. reflexivity. Qed.
+
+Section Spec.
+Variable files : list jfile.
+Variable srcs : list src_entry.
+Variable vals : values.
+Hypothesis Eb : build_values files = Ok vals.
+Hypothesis Wnd : nodup_keys srcs = true.
+Hypothesis Wsrc : forall e, In e srcs -> (let '(ns, l, p, s) := e in
+        (match s with Some items => xitems_wf ident_check items | None => true end)
+        && match jget files l (ns, p) with Some j => jleaf_matches j s | None => false end) = true.
+Hypothesis Wleaves : forall lf, In lf (all_jleaves files) -> (let '(ns, l, q, _) := lf in
+        existsb (fun e => entry_key_eqb (ns, l, q) (src_key e)) srcs) = true.
+
+(** what a listed key holds *)
+Lemma wf_entry ns l p s : In (ns, l, p, s) srcs ->
+  match s with
+  | Some items => xitems_wf ident_check items = true /\
+                  exists v, parse_top ident_check json_args_model true (xprint_list items) = Ok v /\ get_value_at vals l (ns, p) = Some (NVal v)
+  | None => get_value_at vals l (ns, p) = Some NDefault
+  end.
+Proof.
+  intros Hin. pose proof (Wsrc _ Hin) as We. cbn beta iota in We. apply andb_true_iff in We as [Wx Wj].
+  pose proof (build_values_lookup files vals l (ns, p) Eb) as Hr. destruct (jget files l (ns, p)) as [j|]; [|discriminate]. cbn [node_rel] in Hr.
+  destruct Hr as (n & Eg & En). destruct j as [t| |lit|ms], s as [items|]; cbn [jleaf_matches] in Wj; try discriminate.
+  - apply str_eqb_eq in Wj. subst t. cbn [build_node] in En.
+    destruct (model_parse (xprint_list items)) as [v| | | |] eqn:Ev; cbn [bind] in En; try discriminate. inversion En; subst n.
+    rewrite model_parse_eq in Ev. split; [exact Wx|]. exists v. auto.
+  - inversion En; subst n. exact Eg.
+Qed.
+
+(** the hypothesis of the soundness theorem *)
+Lemma wf_src_hyp : forall L p, match src_lookup srcs L p with
+               | Some (Some items) =>
+                   xitems_wf ident_check items = true /\
+                   exists v, parse_top ident_check json_args_model true (xprint_list items) = Ok v /\ get_value_at vals L p = Some (NVal v)
+               | Some None => get_value_at vals L p = Some NDefault
+               | None => get_value_at vals L p = None \/ exists sub, get_value_at vals L p = Some (NSub sub)
+               end.
+Proof.
+  intros L [nsq pq]. rewrite src_lookup_find. cbn [fst snd].
+  destruct (src_find srcs (nsq, L, pq)) as [s|] eqn:Es.
+  - apply src_find_some in Es. cbn [fst snd] in Es. apply (wf_entry _ _ _ _ Es).
+  - destruct (get_value_at vals L (nsq, pq)) as [n|] eqn:Eg; [|left; reflexivity].
+    destruct (nis_leaf n) eqn:El; [|destruct n; try discriminate; right; eexists; reflexivity].
+    exfalso. pose proof (build_values_lookup files vals L (nsq, pq) Eb) as Hr.
+    destruct (jget files L (nsq, pq)) as [j|] eqn:Ej; cbn [node_rel] in Hr.
+    + destruct Hr as (n' & En' & Eb'). rewrite Eg in En'. inversion En'; subst n'.
+      pose proof (build_leaf_inv j n Eb' El) as Hjl.
+      pose proof (jget_leaf_in files L nsq pq j Ej Hjl) as Hin.
+      pose proof (Wleaves _ Hin) as Hex. cbn beta iota in Hex. apply existsb_exists in Hex as (e & He & Hk).
+      rewrite (src_find_none srcs _ Es e He) in Hk. discriminate.
+    + rewrite Eg in Hr. discriminate.
+Qed.
+
+(** one listed source against the collected entries *)
+Lemma wf_clause dflt inherits ents ns l p items :
+  collect (run_of vals dflt inherits) (all_leaves vals) = Ok ents -> In (ns, l, p, Some items) srcs ->
+  match xdenote (src_lookup srcs) dflt inherits 40 l items, find_entry (ns, l, p) ents with
+  | Some d, Some (Some v) => pieces_eqb (pieces v) (pc_norm d)
+  | None, _ => true
+  | _, _ => false
+  end = true.
+Proof.
+  intros H Hin. destruct (wf_entry _ _ _ _ Hin) as (Wx & v & Ev & Eg).
+  pose proof (get_value_at_lfind vals l ns p (NVal v) Eg eq_refl) as Hf.
+  destruct (collect_find _ _ _ _ _ H Hf) as (val & Erun & Efind). rewrite Efind.
+  rewrite run_of_eq in Erun.
+  destruct (final_value_nval_some _ _ _ _ _ _ _ _ Erun) as (r' & ->).
+  destruct (xdenote (src_lookup srcs) dflt inherits 40 l items) as [d|] eqn:Ed; [|reflexivity].
+  assert (Es : src_lookup srcs l (ns, p) = Some (Some items)).
+  { rewrite src_lookup_find. cbn [fst snd]. apply src_find_in; assumption. }
+  rewrite (sound_holds ident_check vals dflt inherits (src_lookup srcs) wf_src_hyp ns l p items v r' Es Eg Erun 40%nat d Ed).
+  apply pieces_eqb_refl.
+Qed.
+End Spec.
+
 Theorem spec_of_model c ents : fcase_wfb c = true -> model_project c = Ok ents ->
   spec_C06 (mk_fcase (f_default c) (f_inherits c) (f_files c) (f_src c) None (Ok ents)) = true.
 Proof.
@@ -119,56 +199,10 @@ Proof.
   match goal with Hx : forallb _ (all_jleaves _) = true |- _ => rename Hx into Wleaves end.
   match goal with Hx : forallb _ (f_src c) = true |- _ => rename Hx into Wsrc end.
   match goal with Hx : nodup_keys _ = true |- _ => rename Hx into Wnd end.
-  set (files := f_files c) in *. set (srcs := f_src c) in *.
-  pose proof (fun L p => build_values_lookup files vals L p Eb) as Hlook.
   rewrite forallb_forall in Wsrc, Wleaves.
-  (* what a listed key holds *)
-  assert (Hentry : forall ns l p s, In (ns, l, p, s) srcs ->
-            match s with
-            | Some items => xitems_wf ident_check items = true /\
-                            exists v, model_parse (xprint_list items) = Ok v /\ get_value_at vals l (ns, p) = Some (NVal v)
-            | None => get_value_at vals l (ns, p) = Some NDefault
-            end).
-  { intros ns l p s Hin. pose proof (Wsrc _ Hin) as We. cbn beta iota in We. apply andb_true_iff in We as [Wx Wj].
-    pose proof (Hlook l (ns, p)) as Hr. destruct (jget files l (ns, p)) as [j|]; [|discriminate]. cbn [node_rel] in Hr.
-    destruct Hr as (n & Eg & En). destruct j as [t| |lit|ms], s as [items|]; cbn [jleaf_matches] in Wj; try discriminate.
-    - apply str_eqb_eq in Wj. subst t. cbn [build_node] in En.
-      destruct (model_parse (xprint_list items)) as [v| | | |] eqn:Ev; cbn [bind] in En; try discriminate. inversion En; subst n.
-      split; [exact Wx|]. exists v. auto.
-    - inversion En; subst n. exact Eg. }
-  (* the hypothesis of the soundness theorem *)
-  assert (Hsrc : forall L p, match src_lookup srcs L p with
-               | Some (Some items) =>
-                   xitems_wf ident_check items = true /\
-                   exists v, parse_top ident_check json_args_model true (xprint_list items) = Ok v /\ get_value_at vals L p = Some (NVal v)
-               | Some None => get_value_at vals L p = Some NDefault
-               | None => get_value_at vals L p = None \/ exists sub, get_value_at vals L p = Some (NSub sub)
-               end).
-  { intros L [nsq pq]. rewrite src_lookup_find. cbn [fst snd].
-    destruct (src_find srcs (nsq, L, pq)) as [s|] eqn:Es.
-    - apply src_find_some in Es. cbn [fst snd] in Es. apply (Hentry _ _ _ _ Es).
-    - destruct (get_value_at vals L (nsq, pq)) as [n|] eqn:Eg; [|left; reflexivity].
-      destruct (nis_leaf n) eqn:El; [|destruct n; try discriminate; right; eexists; reflexivity].
-      exfalso. pose proof (Hlook L (nsq, pq)) as Hr. destruct (jget files L (nsq, pq)) as [j|] eqn:Ej; cbn [node_rel] in Hr.
-      + destruct Hr as (n' & En' & Eb'). rewrite Eg in En'. inversion En'; subst n'.
-        pose proof (build_leaf_inv j n Eb' El) as Hjl.
-        pose proof (jget_leaf_in files L nsq pq j Ej Hjl) as Hin.
-        pose proof (Wleaves _ Hin) as Hex. cbn beta iota in Hex. apply existsb_exists in Hex as (e & He & Hk).
-        rewrite (src_find_none srcs _ Es e He) in Hk. discriminate.
-      + rewrite Eg in Hr. discriminate. }
-  (* every listed source *)
-  unfold spec_C06. cbn [f_expect f_impl f_src f_default f_inherits]. fold srcs.
+  unfold spec_C06. cbn [f_expect f_impl f_src f_default f_inherits].
   apply forallb_forall. intros [[[ns l] p] s] Hin. destruct s as [items|]; [|reflexivity].
-  destruct (Hentry _ _ _ _ Hin) as (Wx & v & Ev & Eg).
-  pose proof (get_value_at_lfind vals l ns p (NVal v) Eg eq_refl) as Hf.
-  destruct (collect_find _ _ _ _ _ H Hf) as (val & Erun & Efind). rewrite Efind.
-  unfold run_of in Erun.
-  destruct (final_value_nval_some _ _ _ _ _ _ _ _ Erun) as (r' & ->).
-  destruct (xdenote (src_lookup srcs) (f_default c) (f_inherits c) 40 l items) as [d|] eqn:Ed; [|reflexivity].
-  assert (Es : src_lookup srcs l (ns, p) = Some (Some items)).
-  { rewrite src_lookup_find. cbn [fst snd]. apply src_find_in; assumption. }
-  rewrite (sound_holds ident_check vals (f_default c) (f_inherits c) (src_lookup srcs) Hsrc ns l p items v r' Es Eg Erun 40%nat d Ed).
-  apply pieces_eqb_refl.
+  exact (wf_clause (f_files c) (f_src c) vals Eb Wnd Wsrc Wleaves (f_default c) (f_inherits c) ents ns l p items H Hin).
 Qed.
 
 (** * rejections *)
@@ -300,16 +334,19 @@ Theorem model_project_first_error c vals pre e post k :
   model_project c = Err k.
 Proof.
   intros Eb Es Hpre He. rewrite model_project_drive, Eb. cbn [bind]. unfold drive. rewrite Es.
-  rewrite (check_reg_first _ pre e post k Hpre He). reflexivity.
+  match goal with |- context [check_reg ?r ?l] =>
+    replace (check_reg r l) with (@Err unit k) by (symmetry; apply check_reg_first; assumption) end.
+  reflexivity.
 Qed.
 
-Lemma fold_err_acc run reg k : fold_left (fun acc e => bind acc (fun _ => bind (run e) (fun _ => Ok tt))) reg (Err k) = Err k.
+Lemma fold_err_acc (run : reg_entry -> res (option pv)) reg k :
+  fold_left (fun acc e => bind acc (fun _ => bind (run e) (fun _ => Ok tt))) reg (Err k) = Err k.
 Proof. induction reg as [|x r IH]; [reflexivity|]. cbn [fold_left bind]. exact IH. Qed.
 Lemma check_reg_err run reg k : check_reg run reg = Err k -> exists e, In e reg /\ run e = Err k.
 Proof.
-  unfold check_reg. generalize tt as u. induction reg as [|x r IH]; intros u H; [discriminate|].
+  unfold check_reg. induction reg as [|x r IH]; intros H; [discriminate|].
   cbn [fold_left bind] in H. destruct (run x) as [v| | | |] eqn:E; cbn [bind] in H.
-  - destruct (IH tt H) as (e & Hin & He). exists e. split; [right; exact Hin | exact He].
+  - destruct (IH H) as (e & Hin & He). exists e. split; [right; exact Hin | exact He].
   - rewrite fold_err_acc in H. inversion H; subst. exists x. split; [left; reflexivity | exact E].
   - exfalso. clear -H. induction r as [|y r IHr]; [discriminate|]. cbn [fold_left bind] in H. apply IHr. exact H.
   - exfalso. clear -H. induction r as [|y r IHr]; [discriminate|]. cbn [fold_left bind] in H. apply IHr. exact H.
@@ -333,7 +370,7 @@ Proof.
     destruct (check_reg (run_of vals (f_default c) (f_inherits c)) _) as [[]| | | |] eqn:Ec; cbn [bind] in H; try discriminate.
     + apply collect_err in H as ([[[ns l] p] n] & _ & He). eapply final_value_err_kinds. exact He.
     + inversion H; subst. apply check_reg_err in Ec as ([[[ns l] p] n] & _ & He). eapply final_value_err_kinds. exact He.
-  - intros H. left. exact H.
+  - intros H. left. inversion H; subst. reflexivity.
 Qed.
 
 (** the predicate on a rejected case: the model's error kind is the expected one *)
